@@ -121,9 +121,9 @@ def gen_c16(tier, rng):
     # float64 (no model replay: these values are outside the exactly-representable domain the model covers)
     for i in range(scale(tier, 30, 300)):
         kind = ["jdkf", "atomicf"][i % 2]
-        ops = []
+        ops = list(rng.choice([["h1", "h1"], ["h-1", "h-1"], ["h1", "h1", "h-1"], ["h1"], []]))
         for _ in range(rng.choice([4, 7, 10])):
-            ops.append(rng.choice(["h1", "h1", "h-1", "a3", "i", "s", "s", "q", "r", "w5", "a-2"]))
+            ops.append(rng.choice(["h1", "h-1", "a3", "i", "s", "s", "q", "q", "r", "w5", "a-2"]))
         s.append(conc.Scn("h%d" % i, kind, rnd_words(rng, 30), [ops], "dfs 0 1", {"nomodel": 1, "maxcells": 2}))
     # grow under contention / Store / grow again / read: stale cells must not come back
     for i in range(scale(tier, 16, 120)):
